@@ -13,3 +13,12 @@ engine.ensure_deps()
 print('dependency rlibs ready in', engine.VDEPS)
 PY
 if [ -x replay/build.sh ]; then replay/build.sh; fi
+# warm the Kani build cache (dependency artefacts only; every check re-snapshots the crate itself)
+python3 - <<'PY'
+import sys
+sys.path.insert(0, 'tools')
+import engine
+for u in engine.kani_units():
+    r = engine.run_kani(u)
+    print('kani warm-up', u['name'], r['verdict'], '%.0fs' % r['wall_s'])
+PY
